@@ -278,6 +278,45 @@ def enumerated_programs():
                     family='%s/%s/%s' % (outer, inner, an))
 
 
+TREE_OPTS = [
+    [], [['branches', 'kids']], [['branches_expr', 'kids()']],
+    [['branches_expr', 'fr()']], [['sort', 'nid']], [['header', 'ta']],
+    [['leaves', 'ta']], [['footer', 'tx']], [['expand', 'ta']],
+    [['reverse', None]], [['branches_expr', 'kids()'], ['header', 'tx']],
+    [['assume_children', None]], [['single', None]],
+    [['skip_unauthorized', None]], [['branches', 'kids'], ['leaves', 'tr']],
+    [['branches_expr', 'fr()'], ['leaves', 'tx']],
+    [['branches_expr', 'cu']], [['branches', 'nosuch']],
+]
+
+
+def enumerated_tree_programs():
+    """dtml-tree with every option set of the table, with and without
+    expand_all, plain and inside let / with / in."""
+    def v(n):
+        return dict(k='var', ref=dict(r='name', n=n), opts=[])
+    body = [v('title'), v('tpId'), dict(k='text', s='n'), v('fa')]
+    wraps = [
+        lambda t: [t],
+        lambda t: [dict(k='let', binds=[['la', dict(r='name', n='va')]],
+                        body=[t, v('la')])],
+        lambda t: [dict(k='with', ref=dict(r='name', n='oa'), mapping=False,
+                        only=False, body=[t, v('xo')])],
+        lambda t: [dict(k='in', ref=dict(r='name', n='s2'), opts=[],
+                        body=[t], **{'else': None})],
+        lambda t: [dict(k='try', body=[t], handlers=[dict(
+            names=[], body=[v('va')])], **{'else': None, 'finally': None})],
+    ]
+    for i, opts in enumerate(TREE_OPTS):
+        for expand_all in (False, True):
+            for j, w in enumerate(wraps):
+                t = dict(k='tree', ref=dict(r='name', n='tq'), opts=opts,
+                         body=body)
+                yield dict(ast=w(t) + [v('vn')], syntax='dtml',
+                           level=(i + j) % 4, expand_all=expand_all,
+                           family='tree/%d/%d/%d' % (i, expand_all, j))
+
+
 def strategy():
     from hypothesis import strategies as st
     return st.fixed_dictionaries(dict(
@@ -295,7 +334,9 @@ def plan(tier, seed):
 def run_shard(shard):
     acc = Acc(ID, sample_every=997)
     if shard.get('enum'):
-        for k, case in enumerate(enumerated_programs()):
+        import itertools
+        for k, case in enumerate(itertools.chain(
+                enumerated_programs(), enumerated_tree_programs())):
             if k % shard['parts'] != shard['part']:
                 continue
             for b, c, msg in check_program(case, acc):
